@@ -1424,6 +1424,10 @@ func (ex *exec) execFor(st *State, s *ast.ForStmt, label string) []*Outcome {
 		if iter > unrollCap {
 			ex.fail(s.Pos(), "unrolling cap exceeded")
 		}
+		if s.Cond == nil && iter > 64 {
+			// `for { ... }` without a loop contract that keeps going: it needs an invariant (never unroll it up to the cap)
+			ex.fail(s.Pos(), "loop %d of %s needs an invariant (no condition, still running after 64 unrolled iterations)", ord, fr.fi.Key)
+		}
 		var next []*State
 		for _, c := range cur {
 			cond := True
